@@ -80,9 +80,14 @@ St0 == [wallet |-> Wallet0, eqBar |-> Zero, cash |-> Zero, pos |-> [i \in I2 |->
         open |-> TRUE, bar |-> 0, n |-> 0, ntr |-> 0, nref |-> 0, done |-> FALSE, ledger |-> Zero,
         settled |-> [i \in I2 |-> 0], epochs |-> [i \in I2 |-> 0], soldOut |-> [i \in I2 |-> 0], setAt |-> [i \in I2 |-> 0]]
 
-Init1 == /\ c \in {[b |-> b, cash |-> ca, hour0 |-> TRUE] : b \in BookIds, ca \in CashAlpha}
-                  \cup {[b |-> 1, cash |-> QI(5), hour0 |-> FALSE]}          \* the run starts on an off-hour bar
-         /\ st = [St0 EXCEPT !.cash = c.cash, !.ledger = c.cash, !.book = Books(c.b), !.hour = c.hour0, !.open = c.hour0]
+(* a configuration with pre = TRUE starts with a forced prefix (not counted against MaxOps): buy 3 calls, sell 2 - a position that
+   was partially sold, so that "amount held" (1) and "amount ever bought" (3) differ when the explored orders follow *)
+PreEv == <<Tr("buy", "C", QI(3), "mkt", Zero), Tr("sell", "C", QI(2), "mkt", Zero)>>
+Init1 == /\ c \in {[b |-> b, cash |-> ca, hour0 |-> TRUE, pre |-> FALSE] : b \in BookIds, ca \in CashAlpha}
+                  \cup {[b |-> 1, cash |-> QI(5), hour0 |-> FALSE, pre |-> FALSE]}          \* the run starts on an off-hour bar
+                  \cup {[b |-> 1, cash |-> QI(5), hour0 |-> TRUE, pre |-> TRUE]}
+         /\ st = [St0 EXCEPT !.cash = c.cash, !.ledger = c.cash, !.book = Books(c.b), !.hour = c.hour0, !.open = c.hour0,
+                              !.n = IF c.pre THEN -Len(PreEv) ELSE 0]
 
 -----------------------------------------------------------------------------
 (* Scen 2 universe *)
@@ -140,7 +145,7 @@ Init == /\ IF Scen = 1 THEN Init1 ELSE Init2
 
 Next == /\ st.n < MaxOps
         /\ (ContinueAfterReject \/ last.out = "ok")
-        /\ \E ev \in Events(st) :
+        /\ \E ev \in (IF st.n < 0 THEN {PreEv[Len(PreEv) + st.n + 1]} ELSE Events(st)) :
              LET r == Step(st, ev) IN
              /\ st' = r.st
              /\ last' = [ev |-> ev, out |-> r.out, cause |-> r.cause, fills |-> r.fills, fee |-> r.fee, acts |-> r.acts, eq |-> Equity(r.st), nv |-> NetValue(r.st, PxEth)]
